@@ -7,8 +7,11 @@ import time
 
 ROOT = os.path.dirname(os.path.dirname(os.path.abspath(__file__)))
 REPO = os.environ.get("STBEM_REPO", "/repo")
-EVID_DIR = os.path.join(ROOT, "evidence")
-REPLAY_DIR = os.path.join(ROOT, "replays")
+# evidence / replays of development runs against a scratch copy of the repository (STBEM_REPO
+# pointing elsewhere) never overwrite the files that belong to /repo itself
+_SCR = "" if os.path.realpath(REPO) == "/repo" else os.path.join(".scratch", "mut")
+EVID_DIR = os.path.join(ROOT, _SCR, "evidence")
+REPLAY_DIR = os.path.join(ROOT, _SCR, "replays")
 FINDINGS = os.path.join(ROOT, "known_findings.json")
 GUARD = "STBEM_VERIF_TRACE"
 
